@@ -42,7 +42,7 @@ REPO_DIR = os.environ.get("VERIF_REPO", "/repo")
 PY = sys.executable
 
 DEFAULT_SEED = {"quick": 20261001, "thorough": 20261002}
-RUN_WALL_CAP_S = 90  # per run; a timeout is a harness error, never a pass
+RUN_WALL_CAP_S = float(os.environ.get("VERIF_RUN_CAP_S", "90"))  # per run; a timeout is a harness error, never a pass
 MAX_EVENTS_KEPT = 400
 
 
@@ -439,7 +439,8 @@ def _worker_init():
 
 
 def _worker_chunk(args):
-    check_id, master, tier, indices = args
+    check_id, master, tier, indices = args[:4]
+    cap = args[4] if len(args) > 4 else RUN_WALL_CAP_S
     check = load_check(check_id)
     out = []
     for i in indices:
@@ -448,13 +449,13 @@ def _worker_chunk(args):
         plan["seed"] = derive_seed(master, check_id, i)
         plan["index"] = i
         plan["tier"] = tier
-        faulthandler.dump_traceback_later(RUN_WALL_CAP_S + 30, exit=True)
-        signal.setitimer(signal.ITIMER_REAL, RUN_WALL_CAP_S)
+        faulthandler.dump_traceback_later(cap + 30, exit=True)
+        signal.setitimer(signal.ITIMER_REAL, cap)
         try:
             res = execute_plan(check, plan)
         except HarnessError as e:
             res = {"index": i, "seed": plan["seed"], "harness_error": f"{type(e).__name__}: {e}",
-                   "trace": traceback.format_exc()[-3000:]}
+                   "trace": traceback.format_exc()[-3000:], "timeout": isinstance(e, HarnessTimeout)}
         finally:
             signal.setitimer(signal.ITIMER_REAL, 0)
             faulthandler.cancel_dump_traceback_later()
@@ -514,6 +515,7 @@ class BatchResult:
         self.harness_errors = []
         self.failed = []  # results with failures (carry their plan)
         self.wall_capped = False
+        self.timeouts_retried = 0  # runs that hit the per-run wall cap in the loaded pool and were re-run alone
 
 
 def run_batch(check_id, tier, master, n_runs, workers, wall_cap_s, chunk=4, log=print) -> BatchResult:
@@ -521,6 +523,7 @@ def run_batch(check_id, tier, master, n_runs, workers, wall_cap_s, chunk=4, log=
     t0 = _real_time.monotonic()
     chunks = [list(range(s, min(s + chunk, n_runs))) for s in range(0, n_runs, chunk)]
     stop = False
+    timed_out = []
     with make_pool(workers) as pool:
         pending = set()
         it = iter(chunks)
@@ -548,7 +551,9 @@ def run_batch(check_id, tier, master, n_runs, workers, wall_cap_s, chunk=4, log=
                 except Exception as e:  # noqa: BLE001 - BrokenProcessPool etc.
                     raise HarnessError(f"worker died: {type(e).__name__}: {e}")
                 for r in rs:
-                    if r.get("harness_error"):
+                    if r.get("harness_error") and r.get("timeout"):
+                        timed_out.append(r)  # re-run alone below: a loaded machine is not a hang
+                    elif r.get("harness_error"):
                         br.harness_errors.append(r)
                         stop = True
                     else:
@@ -560,6 +565,29 @@ def run_batch(check_id, tier, master, n_runs, workers, wall_cap_s, chunk=4, log=
                 br.wall_capped = True
                 stop = True
             submit_more()
+    if timed_out:
+        # A run that exceeded the per-run wall cap while 16 workers (and whatever else the machine runs) competed
+        # for the cores is executed once more, two at a time, with four times the cap.  Same plan, same seed,
+        # same decisions - only wall-clock time differs, which the simulated system never reads.  A second timeout
+        # is a harness error (never a pass).
+        log(f"re-running {len(timed_out)} run(s) that hit the {RUN_WALL_CAP_S}s per-run wall cap, alone, cap x4")
+        with make_pool(2) as pool:
+            futs = [pool.submit(_worker_chunk, (check_id, master, tier, [r["index"]], RUN_WALL_CAP_S * 4))
+                    for r in timed_out[:8]]
+            for fut in futs:
+                try:
+                    rs = fut.result(timeout=RUN_WALL_CAP_S * 4 * 8 + 120)
+                except Exception as e:  # noqa: BLE001
+                    raise HarnessError(f"worker died: {type(e).__name__}: {e}")
+                for r in rs:
+                    if r.get("harness_error"):
+                        br.harness_errors.append(r)
+                    else:
+                        br.timeouts_retried += 1
+                        br.results.append(r)
+                        if r["failures"]:
+                            br.failed.append(r)
+        br.harness_errors.extend(timed_out[8:])
     br.results.sort(key=lambda r: r["index"])
     br.failed.sort(key=lambda r: r["index"])
     return br
@@ -842,6 +870,7 @@ def write_evidence(check_id, check, tier, master, br, wall, wall_batch, det, kno
             "determinism_selftest": det,
             "known_findings_seen": dict(known_seen),
             "wall_capped": br.wall_capped,
+            "timeouts_retried_alone": br.timeouts_retried,
             "workers": workers,
             "exhaustive": False,
         },
